@@ -7,7 +7,7 @@ META = dict(
               "generator on an in-memory file system",
     text="Every combination of keep {0,1,2,3} x cycle period {0,1,2 ticks} x size threshold {0, header+1 record, header+3 records} x "
          "flush period {2,3 ticks} x reuse x restart {none, STOP/START of the same logger, new logger objects on the same directory} "
-         "(plus configurations with two logs in the logger; thorough: more periods, longer stream, logger period 2) runs a counter "
+         "(plus configurations with two and three logs in the logger; thorough: more periods, longer stream, logger period 2) runs a counter "
          "stream through the real Logger; a second family runs a once/update/change log on a share written at tick 0 and then only at "
          "tick 5 or never (so the log is silent across whole flush intervals), alone or next to an always log, with no rotation or "
          "rotation with a cycle period below and above the flush period.  After every logger "
@@ -27,7 +27,7 @@ import re
 from mc import core
 
 TICK = 0.5
-BASES = ["log", "logB"]
+BASES = ["log", "logB", "logC"]
 TAG = "x"
 RECORD = re.compile(r"^\d+(?:\.\d+)?\t(\d+)$")
 
@@ -70,6 +70,8 @@ def configs(tier):
                                     variants.append(("proc", m, 1))
                             if thorough or (keep in (0, 2) and not reuse):
                                 variants.append(("none", 0, 2))      # two logs in the logger
+                            if (thorough and size == 0 and period == 1) or (keep in (0, 2) and not reuse and size == 0 and cyc != 0.5):
+                                variants.append(("none", 0, 3))      # three logs in the logger
                             for restart, mid, nlogs in variants:
                                 k, c, s = keep, cyc, size
                                 if not c:
@@ -82,6 +84,11 @@ def configs(tier):
                                 seen.add(key)
                                 out.append(dict(keep=k, cyc=c, size=s, flush=flush, reuse=reuse, period=period,
                                                 restart=restart, mid=mid, nticks=nticks, logs=nlogs, sparse=None))
+    if not thorough:
+        for nlogs in (2, 3):
+            for flush in flushes:
+                out.append(dict(keep=2, cyc=2.0, size=0, flush=flush, reuse=False, period=1,
+                                restart="none", mid=0, nticks=nticks, logs=nlogs, sparse=None))
     # Sparse record streams: a once / update / change log on its own share that is written at
     # tick 0 (creation) and then only at the listed ticks, so the log stays silent across whole
     # flush intervals; alone in the logger or next to an always log; cycle period below and
@@ -204,10 +211,11 @@ class Run:
 
         def flush_all():
             was_open = [bool(log.file and not log.file.closed) for log in w.logs]
-            logger_flush()
+            res = logger_flush()
             for k, o in enumerate(was_open):
                 if o:
                     fs.mark("flushed", log=k, by="Logger.flush")    # 'Flush all log files'
+            return res                                                # transparent: callers may use the result
         w.logger.flush = flush_all
         return w
 
@@ -219,9 +227,10 @@ class Run:
             def wrapped():
                 f = log.file
                 was_open = bool(f and not f.closed)
-                orig()
+                res = orig()
                 if was_open:
                     fs.mark("flushed", log=k, by=by)
+                return res         # transparent: e.g. any(log.flush() for log in logs) must see it
             return wrapped
         log.flush = wrap(log.flush, "flush")
         log.close = wrap(log.close, "close")          # closing a log is a flush point too
@@ -469,7 +478,7 @@ def work_shard(item):
     viol = []
     for idx, cfg in enumerate(configs(tier)):
         if idx % NSHARDS == shard:
-            p = work((idx, cfg, midwrite))
+            p = work((idx, cfg, midwrite if cfg.get("logs", 1) < 3 else "one"))
             viol.extend(p.extra.pop("viol"))
             out.merge(p)
     out.extra["viol"] = viol
@@ -538,6 +547,8 @@ def run():
         "whichever retained file it now lives",
         "a copy overwritten in the oldest slot (name + two-digit keep index) is dropped by design; overwriting any other copy that "
         "holds records is a loss",
+        "the harness wrappers around Logger.flush / Log.flush / Log.close that journal the flush points return the wrapped call's result "
+        "unchanged; with three logs the loss patterns are cut at every write boundary and once inside each write (not at every byte)",
         "empty placeholder copies created by the trial open are allowed: 'each file starting with the header' is applied to non-empty files",
         "copy k must hold exactly what the main file held k rotations ago (Logger docstring: keep = number of log copies in rotation)",
         "records are numbered by the logger send that writes them (START, RUN and STOP all log under rule always), so STOP followed by "
@@ -550,7 +561,7 @@ def run():
     ck.coverage_extra = dict(configurations=len(cfgs), tick=TICK, header_bytes=H, midwrite_cuts=midwrite,
                              ticks_per_run=cfgs[0]["nticks"] if cfgs else 0)
     return ck.finish(
-        rule="configurations (keep x cycle period x size threshold x flush period x reuse x restart kind x one/two always logs%s; plus "
+        rule="configurations (keep x cycle period x size threshold x flush period x reuse x restart kind x one/two/three always logs%s; plus "
              "sparse rule {once,update,change} x write schedule x {no rotation, cycle period below/above flush period} x alone/with always log) "
              "x crash after every journalled "
              "VFS operation x every prefix (all byte offsets) of each file's unsynced bytes; evaluations = crash images + clean-state "
